@@ -591,6 +591,17 @@ Qed.
    record of a creation with the SAME ttl in each of its batches (put-if-absent, re-create after Get, CAS over a
    tombstoned index), so they expire together ---------- *)
 
+Lemma c17_oracle_sound_ttl_write prefix ettl op lease k ttls :
+  c17_check (KTtlWrite prefix ettl op lease k ttls) = true -> c17_oracle (KTtlWrite prefix ettl op lease k ttls) = None.
+Proof.
+  cbn [c17_check c17_oracle]. intros H. apply andb_true_iff in H as [H _].
+  assert (Hall : forallb (fun t => (t =? 0) || ((op =? 0) && is_event_key prefix k && (ettl <=? t))) ttls = true); [|rewrite Hall; reflexivity].
+  apply forallb_forall. intros t Ht. rewrite forallb_forall in H. specialize (H t Ht). apply N.eqb_eq in H. subst t.
+  destruct (op =? 0); [|reflexivity]. cbn [andb].
+  unfold create_ttl, is_event_key, events_prefix. destruct (has_prefix (prefix ++ events_sub) k); [|reflexivity].
+  cbn [andb]. rewrite N.leb_refl. apply orb_true_r.
+Qed.
+
 Lemma badger_put_gone t ttl x s now :
   ttl <> 0 -> t + ttl <= now ->
   ~ In x (map t_rec (ts_store (advance EBadger now (put_ent EBadger t ttl x s)))).
